@@ -12,6 +12,8 @@ import (
 	"fmt"
 	"io"
 	"os"
+	"sort"
+	"strings"
 	"testing"
 	"time"
 
@@ -77,12 +79,66 @@ func c20Gen(t *rapid.T, tier string) any {
 type c20Used struct {
 	fi   *File
 	what string
+	hist int // index of the operation in the history
 }
 
 type c20In struct {
 	kind string
 	file int
 	val  string
+	// loose: the operation went through an object that a directory flush dropped
+	// from its parent's cache (known finding): in the relaxed model its write may
+	// or may not reach the tree and its read is not judged
+	loose bool
+}
+
+// c20Relaxed is the model used to decide whether a failing history is explained by
+// the known finding alone: the state is the set of contents the file may have.
+var c20Relaxed = porcupine.Model{
+	Partition: func(history []porcupine.Operation) [][]porcupine.Operation { return c20Model.Partition(history) },
+	Init:      func() interface{} { return "\x00" },
+	Step: func(state, input, output interface{}) (bool, interface{}) {
+		in := input.(c20In)
+		set := strings.Split(state.(string), "\x00")[1:] // leading separator: the empty content is a member too
+		has := func(v string) bool {
+			for _, x := range set {
+				if x == v {
+					return true
+				}
+			}
+			return false
+		}
+		switch {
+		case in.kind == "touch" && !in.loose:
+			return true, state
+		case in.kind == "touch":
+			// a metadata update through a dropped object writes that object's node back
+			// into the tree: the content may become any value the file ever had
+			for _, v := range strings.Split(in.val, "\x00") {
+				if !has(v) {
+					set = append(set, v)
+				}
+			}
+			sort.Strings(set)
+			return true, "\x00" + strings.Join(set, "\x00")
+		case in.kind == "write" && !in.loose:
+			return true, "\x00" + in.val
+		case in.kind == "write":
+			if !has(in.val) {
+				set = append(set, in.val)
+				sort.Strings(set)
+			}
+			return true, "\x00" + strings.Join(set, "\x00")
+		case in.loose:
+			return true, state
+		default:
+			if !has(output.(string)) {
+				return false, state
+			}
+			return true, "\x00" + output.(string)
+		}
+	},
+	DescribeOperation: func(input, output interface{}) string { return fmt.Sprintf("%+v -> %q", input, output) },
 }
 
 var c20Model = porcupine.Model{
@@ -108,6 +164,8 @@ var c20Model = porcupine.Model{
 		switch in.kind {
 		case "write":
 			return true, in.val
+		case "touch": // SetMode / SetModTime: the content stays
+			return true, state
 		default:
 			return output.(string) == state.(string), state
 		}
@@ -127,6 +185,7 @@ func c20Run(t *testing.T, ci any, trace bool) *verifsim.Result {
 	c := ci.(*c20Case)
 	var hist []porcupine.Operation
 	var orphanedAll []string
+	looseOps := map[int]bool{}
 	res := verifsim.Run(t, c.Cfg, trace, func(s *verifsim.Sim) {
 		ds := simdag.New(s, nil)
 		ds.Quiet = true
@@ -155,7 +214,7 @@ func c20Run(t *testing.T, ci any, trace bool) *verifsim.Result {
 				panic(err)
 			}
 			files[i] = fsn.(*File)
-			hist = append(hist, porcupine.Operation{ClientId: 0, Input: c20In{"write", i, init}, Output: "", Call: -2, Return: -1})
+			hist = append(hist, porcupine.Operation{ClientId: 0, Input: c20In{kind: "write", file: i, val: init}, Output: "", Call: -2, Return: -1})
 		}
 		// scratch file that only Mv touches
 		if err := PutNode(root, "/m", dag.NodeWithData(ft.FilePBData([]byte("m"), 1))); err != nil {
@@ -163,8 +222,16 @@ func c20Run(t *testing.T, ci any, trace bool) *verifsim.Result {
 		}
 		mvState := 0
 		var used []c20Used
+		var flushes [][2]int64 // [invoke, return] of every directory flush issued by a task
 		ds.Quiet = false
 
+		touched := func(fi *File, what string, file int, inv int64) {
+			used = append(used, c20Used{fi, what, len(hist)})
+			if c20Detached(root, fi) {
+				looseOps[len(hist)] = true
+			}
+			hist = append(hist, porcupine.Operation{ClientId: 99, Input: c20In{kind: "touch", file: file}, Output: "", Call: inv, Return: s.Seq()})
+		}
 		readAll := func(fi *File) (string, error) {
 			fd, err := fi.Open(ctx, Flags{Read: true})
 			if err != nil {
@@ -213,16 +280,24 @@ func c20Run(t *testing.T, ci any, trace bool) *verifsim.Result {
 						if err := fd.Close(); err != nil {
 							s.Failf("op-failed", "Close f%d: %v", op.File, err)
 						}
-						used = append(used, c20Used{fi, "write " + val})
-						hist = append(hist, porcupine.Operation{ClientId: ti + 1, Input: c20In{"write", op.File, val}, Output: "", Call: inv, Return: s.Seq()})
+						used = append(used, c20Used{fi, "write " + val, len(hist)})
+						if c20Detached(root, fi) {
+							// the object had been dropped by a directory flush before the close
+							// returned: what the known finding is about
+							looseOps[len(hist)] = true
+						}
+						hist = append(hist, porcupine.Operation{ClientId: ti + 1, Input: c20In{kind: "write", file: op.File, val: val}, Output: "", Call: inv, Return: s.Seq()})
 					case "read":
 						got, err := readAll(fi)
 						if err != nil {
 							s.Failf("op-failed", "read f%d: %v", op.File, err)
 							return
 						}
-						used = append(used, c20Used{fi, fmt.Sprintf("read -> %q", got)})
-						hist = append(hist, porcupine.Operation{ClientId: ti + 1, Input: c20In{"read", op.File, ""}, Output: got, Call: inv, Return: s.Seq()})
+						used = append(used, c20Used{fi, fmt.Sprintf("read -> %q", got), len(hist)})
+						if c20Detached(root, fi) {
+							looseOps[len(hist)] = true
+						}
+						hist = append(hist, porcupine.Operation{ClientId: ti + 1, Input: c20In{kind: "read", file: op.File, val: ""}, Output: got, Call: inv, Return: s.Seq()})
 					case "mode":
 						if _, err := fi.Mode(); err != nil {
 							s.Failf("op-failed", "Mode f%d: %v", op.File, err)
@@ -235,10 +310,12 @@ func c20Run(t *testing.T, ci any, trace bool) *verifsim.Result {
 						if err := fi.SetMode(os.FileMode(0o600 + n)); err != nil {
 							s.Failf("op-failed", "SetMode f%d: %v", op.File, err)
 						}
+						touched(fi, "setmode", op.File, inv)
 					case "setmodtime":
 						if err := fi.SetModTime(time.Unix(int64(1000+n), 0)); err != nil {
 							s.Failf("op-failed", "SetModTime f%d: %v", op.File, err)
 						}
+						touched(fi, "setmodtime", op.File, inv)
 					case "size":
 						if _, err := fi.Size(); err != nil {
 							s.Failf("op-failed", "Size f%d: %v", op.File, err)
@@ -251,10 +328,12 @@ func c20Run(t *testing.T, ci any, trace bool) *verifsim.Result {
 						if _, err := FlushPath(ctx, root, "/"); err != nil {
 							s.Failf("op-failed", "FlushPath(/): %v", err)
 						}
+						flushes = append(flushes, [2]int64{inv, s.Seq()})
 					case "fileflush":
 						if err := fi.Flush(); err != nil {
 							s.Failf("op-failed", "File.Flush f%d: %v", op.File, err)
 						}
+						touched(fi, "fileflush", op.File, inv)
 					case "mv":
 						// only the scratch file moves; concurrent movers may lose the race, which is fine
 						src, dst := "/m", "/d/m"
@@ -284,6 +363,15 @@ func c20Run(t *testing.T, ci any, trace bool) *verifsim.Result {
 		for _, u := range used {
 			if c20Detached(root, u.fi) {
 				orphanedAll = append(orphanedAll, u.what)
+				// dropped after the operation returned: covered by the known finding only if
+				// a directory flush was in progress while the operation ran (its write then
+				// landed between the flush's snapshot of the child and the cache drop)
+				op := hist[u.hist]
+				for _, f := range flushes {
+					if f[0] <= op.Return && f[1] >= op.Call {
+						looseOps[u.hist] = true
+					}
+				}
 				s.Probe("op-on-object-dropped-by-directory-flush")
 			}
 		}
@@ -308,7 +396,7 @@ func c20Run(t *testing.T, ci any, trace bool) *verifsim.Result {
 				s.Failf("op-failed", "final read f%d: %v", i, err)
 				return
 			}
-			hist = append(hist, porcupine.Operation{ClientId: 0, Input: c20In{"read", i, ""}, Output: got, Call: inv, Return: s.Seq()})
+			hist = append(hist, porcupine.Operation{ClientId: 0, Input: c20In{kind: "read", file: i, val: ""}, Output: got, Call: inv, Return: s.Seq()})
 			viaRoot, err := c20ReadFromRoot(ctx, ds, rootNode, c20Paths[i])
 			if err != nil {
 				s.Failf("flushed-root-unreadable", "reading %s from the flushed root failed: %v", c20Paths[i], err)
@@ -316,8 +404,11 @@ func c20Run(t *testing.T, ci any, trace bool) *verifsim.Result {
 			}
 			if viaRoot != got {
 				cls := "flushed-root-stale"
-				if len(orphanedAll) > 0 {
-					cls = "stale-object-after-directory-flush"
+				for _, u := range used {
+					// only when an operation on this very file went through a dropped object
+					if looseOps[u.hist] && hist[u.hist].Input.(c20In).file == i {
+						cls = "stale-object-after-directory-flush"
+					}
 				}
 				s.Failf(cls, "%s: MFS reads %q but the flushed root holds %q", c20Paths[i], got, viaRoot)
 				return
@@ -341,7 +432,33 @@ func c20Run(t *testing.T, ci any, trace bool) *verifsim.Result {
 				fmt.Fprintf(&b, "  client%d [%d,%d] %+v -> %q\n", op.ClientId, op.Call, op.Return, op.Input, op.Output)
 			}
 			cls, extra := "lost-or-stale-write", ""
-			if len(orphanedAll) > 0 {
+			// Is the failure explained by the known finding alone? Judge the history again
+			// with the operations that went through dropped objects relaxed (their writes
+			// may or may not have reached the tree, their reads are not judged).
+			explained := false
+			if len(looseOps) > 0 {
+				relaxed := append([]porcupine.Operation(nil), hist...)
+				for i := range relaxed {
+					if looseOps[i] {
+						in := relaxed[i].Input.(c20In)
+						in.loose = true
+						if in.kind == "touch" {
+							var vals []string
+							for _, o := range hist {
+								if oi := o.Input.(c20In); oi.kind == "write" && oi.file == in.file {
+									vals = append(vals, oi.val)
+								}
+							}
+							in.val = strings.Join(vals, "\x00")
+						}
+						relaxed[i].Input = in
+					}
+				}
+				if rr := porcupine.CheckOperationsTimeout(c20Relaxed, relaxed, 20*time.Second); rr != porcupine.Illegal {
+					explained = true
+				}
+			}
+			if explained {
 				cls = "stale-object-after-directory-flush"
 				extra = fmt.Sprintf("NOTE: operation(s) %v used a File/Directory object that a concurrent Directory.Flush (cacheSync(clean)) dropped from its parent's cache while or after the operation used it; such an object no longer propagates to, nor is refreshed from, the tree\n", orphanedAll)
 			}
